@@ -29,7 +29,7 @@ def main():
         return 2
     if a.only:
         jobs = [j for j in jobs if re.search(a.only, j.name)]
-    vf.run_jobs(jobs, workers=getattr(mod, 'WORKERS', None))
+    vf.run_jobs(jobs, workers=getattr(mod, 'WORKERS_QUICK', None) if ctx.tier == 'quick' and hasattr(mod, 'WORKERS_QUICK') else getattr(mod, 'WORKERS', None))
 
     known = vf.load_known_findings()
     kf = [k for k in known.get('findings', []) if k['property'] == a.prop]
